@@ -57,6 +57,10 @@ func c16rGen(t *rapid.T) c16rCase {
 			c.Steps = append(c.Steps, c16rStep{Kind: "trig", N: rapid.IntRange(0, 3).Draw(t, "tchan"), M: rapid.IntRange(0, 5).Draw(t, "tvar")})
 		}
 	}
+	if rapid.IntRange(0, 1).Draw(t, "epilogue") == 0 {
+		// the session ends with a start that fails part-way (the source is not configured): nothing is announced after it
+		c.Steps = append(c.Steps, c16rStep{Kind: "stop"}, c16rStep{Kind: "start", Name: rapid.SampledFrom([]string{"ABACOSOURCE", "LANCEROSOURCE", "ROACHSOURCE"}).Draw(t, "badname")})
+	}
 	return c
 }
 
